@@ -620,6 +620,11 @@ package kafka
 //@   cancellable ctx.Done()
 // the same for the other waits of a Transport round trip (pool not ready yet, connection being dialled, response pending)
 // and for a synchronous CommitMessages waiting for the commit loop
+//@ func (*connPool).discover
+//@   option noframe
+//@   option only callsite callsite-reach
+//@   modifies heap
+//@   callsite send requires cap($1.res) >= 1
 //@ func (*connPool).roundTrip
 //@   option noframe
 //@   option only cancellable
@@ -1252,7 +1257,7 @@ package kafka
 //@   modifies wb.$wn, wb.b
 //@   callsite (*writeBuffer).Flush requires wb.$wn == old(wb.$wn) + 4 + int(h.Size)
 
-//@ property C12
+//@ property C12 C09
 
 // Routing: a request for which the cluster layout (or the coordinator lookup) designates a broker is sent on a connection
 // of that broker's group; the shared control connection is used only when no broker is designated (id < 0).
@@ -1269,6 +1274,9 @@ package kafka
 //@   modifies heap
 //@   assume a FindCoordinator request is answered with a *findcoordinator.Response (protocol pairing of request and response types)
 //@   callsite iface promise.await ensures result1 == nil ==> typeis(result0, "*findcoordinator.Response") && !isnil(deref(result0, "findcoordinator.Response"))
+// the promise handed to a connection's request loop has room for the one answer: resolve/reject never block the loop, also
+// when the caller stopped waiting (context ended), so the connection is released or closed and its goroutine ends
+//@   callsite send requires cap($1.res) >= 1
 //@   callsite (*connPool).grabClusterConn requires brokerID < 0
 //@   callsite (*connPool).grabBrokerConn requires $2 >= 0 && $2 == brokerID
 
